@@ -8,7 +8,9 @@ definitions of `Model/Tree.lean` (`Cond.build`) and `Model/Assoc.lean` (`Cond.vi
 `Cond.model`, `Cond.semCBI`), instantiated with the macro table of `PP/Expand.lean` and with
 expansion + evaluation (`runExpand`, `evaluate`) as the meaning of a controlling expression.
 `referenceFile` runs the flat ISO-C machine `Cond.reference` (`Spec/CPreproc.lean`) on the same
-line list.  The theorems of `Props/C01.lean` are about exactly these functions. -/
+line list.  The node-list level (`analyseNodes` / `referenceNodes`) is shared with the Fortran front
+end (`Model/FCond.lean`); `analyseFile text defs = parseFile text >>= (analyseNodes · defs)`.
+The theorems of `Props/C01.lean` are about exactly these functions. -/
 namespace CbiVerif.PP
 
 inductive NKind | code | ifk | elifk | elsek | endk | define | undef | include | pragma | unrecognized
@@ -151,9 +153,9 @@ abbrev Row := NKind × List Nat × Bool
 def rowsOf (nodes : List PNode) (out : List Nat) : List Row :=
   nodes.zipIdx.map fun (n, i) => (n.kind, n.lines, out.contains i)
 
-/-- MODEL: analyse one file with `-D` definitions: per node (kind, lines, attributed) -/
-def analyseFile (text : String) (defs : List String) : Except Err (List Row) := do
-  let nodes ← parseFile text
+/-- MODEL, node-list level (shared by the C path `analyseFile` and the Fortran path
+`Fortran.analyseFortran`): tree builder + visitor with `Platform.define`; per node (kind, lines, attributed) -/
+def analyseNodes (nodes : List PNode) (defs : List String) : Except Err (List Row) := do
   if (Cond.build (labels nodes)).isNone then throw .type_
   let w ← initWorld Cond.MWorld.defineCBI defs
   match Cond.model (Cond.semCBI (langOf nodes.toArray)) w (labels nodes) with
@@ -164,6 +166,10 @@ def analyseFile (text : String) (defs : List String) : Except Err (List Row) := 
     | some e => throw e
     | none => return rowsOf nodes a.out
 
+/-- MODEL: analyse one file with `-D` definitions: per node (kind, lines, attributed) -/
+def analyseFile (text : String) (defs : List String) : Except Err (List Row) :=
+  parseFile text >>= (analyseNodes · defs)
+
 structure RefResult where
   rows : List Row
   bad : Bool            -- structural diagnostic (#else without #if, #elif after #else, …)
@@ -173,12 +179,15 @@ structure RefResult where
   c23 : Bool            -- the unit uses `#elifdef/#elifndef` (C23; gcc >= 12 accepts them silently), which
                         -- neither CBI nor this reference treats as conditionals: outside the modelled set
 
-/-- SPEC: the flat reference machine on the same line list, with C's `#define` -/
-def referenceFile (text : String) (defs : List String) : Except Err RefResult := do
-  let nodes ← parseFile text
+/-- SPEC, node-list level: the flat reference machine on the line list of `nodes`, with C's `#define` -/
+def referenceNodes (nodes : List PNode) (defs : List String) : Except Err RefResult := do
   let w ← initWorld Cond.MWorld.defineC defs
   let r := Cond.reference (Cond.semC (langOf nodes.toArray)) w (labels nodes)
   return { rows := rowsOf nodes r.out, bad := r.bad, unterminated := !r.stack.isEmpty, diag := r.σ.diag, err := r.σ.err,
            c23 := nodes.any fun n => n.kind == .unrecognized && (n.name == "elifdef" || n.name == "elifndef") }
+
+/-- SPEC: the flat reference machine on the same line list, with C's `#define` -/
+def referenceFile (text : String) (defs : List String) : Except Err RefResult :=
+  parseFile text >>= (referenceNodes · defs)
 
 end CbiVerif.PP
